@@ -72,51 +72,44 @@ class Monitor:
 
 
 def gen_programs(rng, nprocs, max_occ, ops, nshared=1):
-    """Random program shape: list of scripts; script = list of instruction
-    tuples.  Processes 0..top-1 are started by the harness at t=0, the others
-    are spawned by an 'S' instruction.  The occurrence budget bounds the number
-    of agenda entries the program can create."""
+    """Random program shape: list of scripts; script = list of instruction tuples. Processes 0..top-1 are started by
+    the harness at t=0, the others are spawned by an 'S' instruction. Every started process gets 1-3 instructions;
+    the number of timeouts (the symbolic timing variables, which drive the path count) is bounded by max_occ - 3."""
+    max_t = max(2, max_occ - 3)
     while True:
-        top = rng.randint(1, max(1, nprocs))
+        top = rng.randint(1, min(3, nprocs))
         scripts = [[] for _ in range(nprocs)]
-        spawned = set()
-        budget = max_occ - 2 * top      # start + termination of each top-level process
-        if budget < 1:
-            top = 1
-            budget = max_occ - 2
-        live = list(range(top))
-        tries = 0
-        while budget > 0 and tries < 50:
-            tries += 1
-            p = rng.choice(live)
-            op = rng.choice(ops)
-            if op == 'T':
-                scripts[p].append(('T',))
-                budget -= 1
-            elif op == 'S':
-                cand = [c for c in range(top, nprocs) if c not in spawned]
-                if not cand or budget < 2:
-                    continue
-                c = cand[0]
-                spawned.add(c)
-                live.append(c)
-                scripts[p].append(('S', c))
-                budget -= 2
-            elif op == 'I':
-                others = [q for q in live if q != p]
-                if not others:
-                    continue
-                scripts[p].append(('I', rng.choice(others)))
-                budget -= 1
-            elif op == 'E':
-                scripts[p].append(('E', rng.randrange(nshared)))
-                budget -= 1
-            elif op == 'W':
-                scripts[p].append(('W', rng.randrange(nshared)))
-            elif op == 'J':
-                others = [q for q in live if q != p]
-                if not others:
-                    continue
-                scripts[p].append(('J', rng.choice(others)))
-        if any(scripts):
-            return {'top': top, 'scripts': [[list(i) for i in s] for s in scripts]}
+        spawned, live, nt = set(), list(range(top)), 0
+        order = list(range(top))
+        for p in order:
+            for _ in range(rng.randint(1, 3)):
+                op = rng.choice(ops)
+                if op == 'T':
+                    if nt >= max_t:
+                        continue
+                    nt += 1
+                    scripts[p].append(('T',))
+                elif op == 'S':
+                    cand = [c for c in range(top, nprocs) if c not in spawned]
+                    if not cand:
+                        continue
+                    c = cand[0]
+                    spawned.add(c)
+                    live.append(c)
+                    order.append(c)
+                    scripts[p].append(('S', c))
+                elif op == 'I':
+                    others = [q for q in live if q != p]
+                    if others:
+                        scripts[p].append(('I', rng.choice(others)))
+                elif op == 'E':
+                    scripts[p].append(('E', rng.randrange(nshared)))
+                elif op == 'W':
+                    scripts[p].append(('W', rng.randrange(nshared)))
+                elif op == 'J':
+                    others = [q for q in live if q != p]
+                    if others:
+                        scripts[p].append(('J', rng.choice(others)))
+        flat = [i for sc in scripts for i in sc]
+        if nt >= 2 and len(flat) >= 3:
+            return {'top': top, 'scripts': [[list(i) for i in sc] for sc in scripts]}
